@@ -632,9 +632,23 @@ class Ledger:
         shift = site.kind in ("overflow:Shl", "overflow:Shr") and len(exprs) == 2
         if shift:
             exprs = [("const", 0), exprs[1]]        # only the amount of a shift can overflow; the shifted value is free
+        # a comparison inside an operand (`2^(n-1) - i32::from(offset > 0)`) contributes 0 or 1 whatever it compares
+        bools = {}
+        def abstract_bools(e):
+            if not isinstance(e, tuple) or not e or not isinstance(e[0], str):
+                return e
+            if e[0] == "bin" and e[1] in ("Lt", "Le", "Gt", "Ge", "Eq", "Ne"):
+                key = ("boolvar", len(bools)) if e not in bools.values() else [k_ for k_, v_ in bools.items() if v_ == e][0]
+                bools[key] = e
+                return key
+            return tuple(abstract_bools(x) if isinstance(x, tuple) and x and isinstance(x[0], str)
+                         else (tuple(abstract_bools(y) if isinstance(y, tuple) else y for y in x) if isinstance(x, tuple) else x) for x in e)
+        exprs = [abstract_bools(x) for x in exprs]
         b = self._res.bindings(fn, exprs)
         if b is None:
             return None
+        for k_ in bools:
+            b[k_] = {0, 1}
         leaves = sorted(b, key=repr)
         import itertools
         total = 1
@@ -1085,6 +1099,11 @@ class Ledger:
             m = re.search(r"core::num::<impl (\w+)>::(\w+)$", c)
             if False:
                 pass
+            elif re.search(r"convert::(num::)?<impl core::convert::From<(\w+)> for \w+>::from$", c) and len(e[2]) == 1:
+                # a lossless conversion (`i32::from(flag)`, `usize::from(x)`): the value itself, within its source type
+                src_ty = re.search(r"From<(\w+)> for", c).group(1)
+                a = self.ival(fn, e[2][0], cons, depth + 1)
+                r = _meet(a, TY_RANGE.get(src_ty)) if a else TY_RANGE.get(src_ty)
             elif c.endswith("::len") or c.endswith("::count") or c.endswith("len_utf8"):
                 r = (1, 4) if c.endswith("len_utf8") else (0, 2**63 - 1)
             elif re.search(r"core::str::<impl str>::r?find$|Iterator>?::position$", c):
@@ -1124,11 +1143,11 @@ class Ledger:
 
     def _field_range(self, e):
         name = e[2]
-        for adt in self.prog.adts.values():
-            for v in adt["variants"]:
-                for f in v["fields"]:
-                    if f["name"] == name and f["ty"] in TY_RANGE:
-                        return TY_RANGE[f["ty"]]
+        if str(name).isdigit():
+            return None                  # `.0` of a tuple or of a call's pair: the name says nothing about the type
+        tys = {f["ty"] for adt in self.prog.adts.values() for v in adt["variants"] for f in v["fields"] if f["name"] == name}
+        if len(tys) == 1:
+            return TY_RANGE.get(next(iter(tys)))       # every struct that has a field of this name gives it this type
         return None
 
     def t_infeasible(self, site):
